@@ -216,7 +216,7 @@ class SimOps:
             if sp is None:
                 print('unknown cell type', kind)
             else:
-                ops.append((sp, o0_idx, i0_idx, i1_idx, i2_idx, i3_idx, *a_ctrl[o0_idx]))
+                ops.append((sp, o0_idx, i0_idx, i1_idx, i2_idx, i3_idx, *(a_ctrl[o0_idx] if o0_idx < len(a_ctrl) else (-1, 0, 0))))
 
         self.ops = np.asarray(ops, dtype='int32')
 
